@@ -6,7 +6,9 @@ import (
 	"fmt"
 	"io"
 	"os"
+	"runtime"
 	"runtime/debug"
+	"strings"
 	"sync"
 	"testing"
 	"testing/synctest"
@@ -61,6 +63,11 @@ func bubble(t *testing.T, f func()) (panicMsg string) {
 	defer func() {
 		if r := recover(); r != nil {
 			panicMsg = fmt.Sprintf("%v", r)
+			if strings.Contains(panicMsg, "deadlock") {
+				buf := make([]byte, 1<<20)
+				n := runtime.Stack(buf, true)
+				panicMsg += "\n" + blockedStacks(string(buf[:n]))
+			}
 		}
 	}()
 	synctest.Test(t, func(t *testing.T) {
@@ -144,3 +151,21 @@ func (r *hReader) Size() int64                 { return r.size }
 func (r *hReader) IoReader() *bufio.Reader     { return r.br }
 func (r *hReader) IsAof() bool                 { return r.aof }
 func (r *hReader) Close()                      {}
+
+// blockedStacks keeps the stacks of goroutines that are durably blocked inside a
+// synctest bubble (the leaked ones), trimmed.
+func blockedStacks(all string) string {
+	var keep []string
+	for _, g := range strings.Split(all, "\n\n") {
+		if strings.Contains(g, "(durable)") || strings.Contains(g, "synctest") {
+			if len(g) > 1500 {
+				g = g[:1500]
+			}
+			keep = append(keep, g)
+		}
+		if len(keep) >= 6 {
+			break
+		}
+	}
+	return strings.Join(keep, "\n\n")
+}
